@@ -164,43 +164,68 @@ KEYCLASS_OWN_OK = {
 
 def keyclass_on_base(repo, col, R):
     """Whether a key names a synaptic (edge) or a compartment (node) quantity decides which table a stored row label refers
-    to.  The registries of the base module hold entries of ALL synapse types; a view's own `synapse_state_names` /
+    to.  (1) The registries of the base module hold entries of ALL synapse types; a view's own `synapse_state_names` /
     `synapse_param_names` list only the types inside the view.  Classifying an entry of a base registry with the view's list
-    treats the synaptic entries of types outside the view as compartment entries (their edge labels are then matched
-    against compartment labels)."""
+    treats the synaptic entries of types outside the view as compartment entries.  (2) record() / clamp() accept, as edge
+    quantities, the synaptic states AND the synaptic currents `i_<synapse>` (second component of `_get_state_names`); wherever
+    the NAME of a recorded / clamped quantity is classified, the list must contain both, or the global edge index of a synaptic
+    current is used as a position in an array that is stored per synapse type."""
     n = 0
-    for cn in ("Module", "View"):
-        for m in repo.classes[cn].methods.values():
-            ex = idx.expander(repo, m)
-            terms = list(ex.returns)
-            for s_ in ex.stores:
-                terms += [t_ for t_ in (s_.value, s_.key) if t_ is not None] + list(s_.guards)
-            for gs in ex.stmt_guards.values():
-                terms += [g for g in gs if isinstance(g, T)]
-            for gs in ex.return_guards:
-                terms += [g for g in gs if isinstance(g, T)]
-            done = set()
-            for t_ in terms:
-                for x in t_.walk():
-                    coll = None
-                    if x.op == "cmp" and x.name in ("in", "not in") and len(x.args) == 2:
-                        coll = x.args[1]
-                    elif x.op == "mcall" and x.name == "isin" and len(x.args) >= 2:
-                        coll = x.args[-1]
-                    if coll is None or coll.op != "attr" or coll.name not in KEYCLASS_SETS or coll.key() in done:
-                        continue
-                    done.add(coll.key())
-                    n += 1
-                    own = _is_self(coll.args[0])
-                    if own and (cn, m.name) in KEYCLASS_OWN_OK:
-                        col.ok(R, m, f"{cn}.{m.name}: key class decided with `{coll.pretty()}`", KEYCLASS_OWN_OK[(cn, m.name)], node=x.node or m.node)
-                        continue
-                    col.check(not own, R, m, f"{cn}.{m.name}: key class (node / edge) decided with the base module's list of synaptic names",
+    # what record()/clamp() accept as edge quantities
+    gs_fi = repo.method("Module", "_get_state_names")
+    gs_ret = idx.expander(repo, gs_fi).merged_return()
+    edge_part = gs_ret.args[1] if (gs_ret is not None and gs_ret.op == "tuple" and len(gs_ret.args) == 2) else None
+    accepts_currents = edge_part is not None and T.find(edge_part, lambda x: x.op == "attr" and x.name == "synapse_current_names") is not None
+    fis = [(cn, m) for cn in ("Module", "View") for m in repo.classes[cn].methods.values()]
+    fis.append((None, repo.func("jaxley/integrate.py", "integrate")))
+    for cn, m in fis:
+        who = f"{cn}.{m.name}" if cn else m.name
+        ex = idx.expander(repo, m)
+        terms = list(ex.returns)
+        for s_ in ex.stores:
+            terms += [t_ for t_ in (s_.value, s_.key) if t_ is not None] + list(s_.guards)
+        for gs in ex.stmt_guards.values():
+            terms += [g for g in gs if isinstance(g, T)]
+        for gs in ex.return_guards:
+            terms += [g for g in gs if isinstance(g, T)]
+        done = set()
+        for t_ in terms:
+            for x in t_.walk():
+                coll = elem = None
+                if x.op == "cmp" and x.name in ("in", "not in") and len(x.args) == 2:
+                    elem, coll = x.args
+                elif x.op == "mcall" and x.name == "isin" and len(x.args) >= 2:
+                    elem, coll = (x.args[0] if len(x.args) == 2 else x.args[1]), x.args[-1]
+                if coll is None:
+                    continue
+                colli = idx.inline(repo, m, coll)  # a helper that returns the list is looked through
+                sets = [y for y in colli.walk() if y.op == "attr" and y.name in KEYCLASS_SETS + ("synapse_current_names",)]
+                if not any(y.name in KEYCLASS_SETS for y in sets) or coll.key() in done:
+                    continue
+                done.add(coll.key())
+                n += 1
+                own = [y for y in sets if _is_self(y.args[0]) and y.name in KEYCLASS_SETS]
+                if own and (cn, m.name) in KEYCLASS_OWN_OK:
+                    col.ok(R, m, f"{who}: key class decided with `{coll.pretty()}`", KEYCLASS_OWN_OK[(cn, m.name)], node=x.node or m.node)
+                elif cn is not None:
+                    col.check(not own, R, m, f"{who}: key class (node / edge) decided with the base module's list of synaptic names",
                               coll.pretty(),
-                              f"`{x.short(80)}` consults `{coll.pretty()}`; on a view this lists only the synapse types inside the view, so a "
-                              f"synaptic entry of another type is classified as a compartment entry and its edge label is matched against "
-                              f"compartment labels", node=x.node or m.node)
-    col.rule(R, "node/edge classification of registry keys uses the base module's synaptic name lists", 5)
+                              f"`{x.short(80)}` consults `{own[0].pretty() if own else ''}`; on a view this lists only the synapse types inside the "
+                              f"view, so a synaptic entry of another type is classified as a compartment entry and its edge label is matched "
+                              f"against compartment labels", node=x.node or m.node)
+                # (2) names of recorded / clamped quantities: the list must contain the synaptic currents as well
+                about_states = any(y.name == "synapse_state_names" for y in sets)
+                from_registry = T.find(elem, lambda y: (y.op == "attr" and y.name in ("recordings", "externals", "external_inds")) or
+                                       (y.op == "param" and y.name in ("externals", "external_inds", "state_name"))) is not None
+                if about_states and from_registry and accepts_currents:
+                    has_cur = any(y.name == "synapse_current_names" for y in sets)
+                    col.check(has_cur, R, m, f"{who}: synaptic currents are classified as edge quantities too",
+                              "synapse_state_names + synapse_current_names",
+                              f"`{x.short(80)}` classifies the name of a recorded / clamped quantity with `{coll.pretty()}` only; record() and "
+                              f"clamp() also accept the synaptic currents `i_<synapse>` as edge quantities (Module._get_state_names), which "
+                              f"are stored per synapse type: their global edge index is then used as a position (wrong synapse, or the "
+                              f"last one when out of range)", node=x.node or m.node)
+    col.rule(R, "node/edge classification of registry keys uses the base module's complete lists of synaptic names", 5)
     if n < 5:
         raise AnalysisError(f"only {n} key-class tests found")
 
